@@ -809,6 +809,10 @@ type isoMismatch struct {
 	Key      isoKey `json:"key"`
 	Isolated string `json:"isolated_rendering"`
 	Rule     string `json:"rule"`
+	// SelfInconsistent: the brand-new process that evaluated only this key got
+	// two different answers from its two evaluations (second LoadSchema, or
+	// LoadQuery after Validate on the same schema object): no history needed.
+	SelfInconsistent bool `json:"self_inconsistent,omitempty"`
 }
 
 // isoResult is what a key evaluates to through each entry point the sessions
@@ -892,6 +896,7 @@ func c10IsolatedMain(args []string) {
 		b, _ := json.Marshal(k)
 		cmd := exec.Command(os.Args[0], "c10-one")
 		cmd.Stdin = bytes.NewReader(b)
+		cmd.Env = append(os.Environ(), fmt.Sprintf("VERIF_BALLAST=%d", 1+i%29))
 		var so, se bytes.Buffer
 		cmd.Stdout, cmd.Stderr = &so, &se
 		if err := cmd.Run(); err != nil {
@@ -901,6 +906,15 @@ func c10IsolatedMain(args []string) {
 		var ir isoResult
 		if json.Unmarshal(so.Bytes(), &ir) != nil {
 			fatal(2, "c10-isolated: child output unreadable for key %s", k.TK)
+		}
+		if ir.A != ir.B && ir.A != overBudgetMark && ir.B != overBudgetMark {
+			x, y := firstDiffLine(ir.A, ir.B)
+			rule := ruleOfLine(x)
+			if x == "" {
+				rule = ruleOfLine(y)
+			}
+			bad = append(bad, isoMismatch{Key: k, Isolated: ir.B, Rule: rule, SelfInconsistent: true})
+			continue
 		}
 		for _, alone := range []string{ir.A, ir.B} {
 			if alone == overBudgetMark {
@@ -919,7 +933,6 @@ func c10IsolatedMain(args []string) {
 	}
 	writeJSON(*out, map[string]interface{}{"compared": compared, "mismatches": bad})
 }
-
 
 const fnvPrime64 = 0x100000001b3
 
@@ -968,17 +981,17 @@ func joinSessions(a, b *Session) *Session {
 // ---------- reporting, minimisation, replay ----------
 
 type c10Replay struct {
-	Format    string   `json:"format"`
-	Property  string   `json:"property"`
-	Class     string   `json:"class"`
-	Session   *Session `json:"session"`
-	Witness   *Witness `json:"witness"`
-	Site      string   `json:"site"`
-	Replay    bool     `json:"replayable"`
-	Confirmed string   `json:"confirmed_on_real_runtime,omitempty"`
+	Format     string     `json:"format"`
+	Property   string     `json:"property"`
+	Class      string     `json:"class"`
+	Session    *Session   `json:"session"`
+	Witness    *Witness   `json:"witness"`
+	Site       string     `json:"site"`
+	Replay     bool       `json:"replayable"`
+	Confirmed  string     `json:"confirmed_on_real_runtime,omitempty"`
 	HistoryKey *isoKey    `json:"history_key,omitempty"` // evaluated after the sessions and alone in a fresh process
 	History    []*Session `json:"history,omitempty"`     // sessions executed before Session in the same process
-	Note      string   `json:"note,omitempty"`
+	Note       string     `json:"note,omitempty"`
 }
 
 func classOf(s *Session, w *Witness) (string, string) {
@@ -1421,5 +1434,3 @@ func c10ConfirmMain(args []string) {
 	sort.Strings(rs)
 	writeJSON(*out, map[string]interface{}{"distinct": len(rs), "renderings": rs, "instrumented": instrumented()})
 }
-
-
